@@ -42,6 +42,10 @@
 //   the cost per step.  The principled continuation is to give write_reader_with_alloc / write_reader_at /
 //   unsplit_range contracts of their own (loop-invariant style) and stub them in their callers; that was outside
 //   the effort limit.
+//   5. (idle machine, load 5-8, 16 GB cap, one harness at a time) K=0, ONE write of <= 2 bytes, every Slot method and
+//      allocate_slot stubbed, invariants() stubbed, snapshot-based obligations, unwind 4
+//      (vq_c01_reassembler_write_k0_l2 in the probe file): stopped after 61 min of CBMC time at 6.7 GB without a result
+//      (memory grew steadily 1.8 -> 3.8 -> 4.8 -> 5.6 -> 6.4 -> 6.7 GB at 2/10/27/36/54/61 min).
 // What IS discharged in modular form: allocate_slot (real code, full domain), pop_watermarked / pop (K <= 2),
 // skip (K <= 1; K = 2 exceeds 12 GB), all observers (K <= 2), each against rep_inv.
 //
@@ -411,7 +415,7 @@ macro_rules! modular {
 // The obligations of one pop are split over two harnesses per queue length (CBMC needs > 12 GB for both together):
 //   part VIEW: result, cursors, chunk bytes, recv' (witness), queue unchanged on None
 //   part INV : the representation invariant is re-established
-//@ harness props=C16,C01 tier=thorough level=bounded bound="K=0 stored slots; Slot methods replaced by contract stubs" timeout=900 mem=12
+//@ harness props=C16,C01 tier=quick level=bounded bound="K=0 stored slots; Slot methods replaced by contract stubs" timeout=300 mem=12
 //@ fn Reassembler::pop_watermarked
 //@ fn Reassembler::pop
 //@ fn Reassembler::read_chunk
@@ -590,7 +594,7 @@ fn vq_c01_reassembler_pop_inv_k2() {
 // ---- skip ----------------------------------------------------------------------------------------------------------------------
 // K <= 1 only: both K=2 harnesses exceed the 12 GB cap (the `while let Some(slot) = pop_front()` loop leaves the queue
 // in a three-way merged symbolic state).
-//@ harness props=C16,C01 tier=thorough level=bounded bound="K=0 stored slots; Slot methods replaced by contract stubs" timeout=900 mem=12
+//@ harness props=C16,C01 tier=quick level=bounded bound="K=0 stored slots; Slot methods replaced by contract stubs" timeout=300 mem=12
 //@ fn Reassembler::skip
 modular! { read0 unwind(4)
 fn vq_c01_reassembler_skip_k0() {
@@ -692,7 +696,7 @@ fn vq_c01_reassembler_skip_inv_k1() {
 }
 
 // ---- observers -------------------------------------------------------------------------------------------------------------------
-//@ harness props=C16,C01 tier=thorough level=bounded bound="K=0 stored slots; Slot methods replaced by contract stubs" timeout=1200 mem=12
+//@ harness props=C16,C01 tier=quick level=bounded bound="K=0 stored slots; Slot methods replaced by contract stubs" timeout=300 mem=12
 //@ fn Reassembler::len
 //@ fn Reassembler::is_empty
 //@ fn Reassembler::consumed_len
